@@ -62,24 +62,28 @@ theorem allParentsVisited_depIn (rl visited ps : List Nat) :
     by_cases hr : p ∈ rl <;> by_cases hv : p ∈ visited <;> simp [depIn, hr, hv]
 
 theorem bfsChildren_depIn (g : Graph) (rl visited : List Nat) (cs frontier : List Nat)
-    (hcs : ∀ c ∈ cs, g.hasNode c = true) :
-    bfsChildren g (depIn rl) visited cs frontier
+    (hcs : ∀ c ∈ cs, g.hasNode c = true)
+    (hg : ∀ c ∈ cs, readyIn g rl visited c = true → visited.contains c = false) :
+    bfsChildren g (depIn rl) true visited cs frontier
       = .ok (frontier ++ cs.filter (readyIn g rl visited)) := by
   induction cs generalizing frontier with
   | nil => simp [bfsChildren]
   | cons c cs ih =>
     have hc : g.hasNode c = true := hcs c (by simp)
     have hcs' : ∀ c ∈ cs, g.hasNode c = true := fun c h => hcs c (by simp [h])
+    have hg' : ∀ c ∈ cs, readyIn g rl visited c = true → visited.contains c = false :=
+      fun c h => hg c (by simp [h])
     simp only [bfsChildren, hc, if_true, allParentsVisited_depIn]
     by_cases hr : readyIn g rl visited c = true
     · have hr' : (g.parentsOf c).all (fun p => !rl.contains p || visited.contains p) = true := hr
-      simp only [hr']
-      rw [ih _ hcs']
+      have hnv : visited.contains c = false := hg c (by simp) hr
+      simp only [hr', hnv, Bool.and_false, Bool.false_eq_true, if_false]
+      rw [ih _ hcs' hg']
       simp [hr]
     · simp only [Bool.not_eq_true] at hr
       have hr' : (g.parentsOf c).all (fun p => !rl.contains p || visited.contains p) = false := hr
       simp only [hr']
-      rw [ih _ hcs']
+      rw [ih _ hcs' hg']
       simp [hr]
 
 /-- Loop invariant of `breadth_first(n)` (`visited` is `acc.reverse`), everything
@@ -241,7 +245,7 @@ theorem bfsLoop_depIn {g : Graph} (wf : g.WF) (hs : g.Simple) {n : Nat}
     (hn : g.hasNode n = true) {rl : List Nat} (hrl : ∀ m, m ∈ rl ↔ g.Reach n m) :
     ∀ (fuel : Nat) (frontier acc : List Nat), BfsNodeInv g n frontier acc →
       g.size < fuel + acc.length →
-      ∃ out, bfsLoop g (depIn rl) fuel frontier acc.reverse acc = (out, none) ∧
+      ∃ out, bfsLoop g (depIn rl) true fuel frontier acc.reverse acc = (out, none) ∧
         BfsNodeInv g n [] out := by
   intro fuel
   induction fuel with
@@ -279,7 +283,33 @@ theorem bfsLoop_depIn {g : Graph} (wf : g.WF) (hs : g.Simple) {n : Nat}
         simp at hlen ⊢; omega
       obtain ⟨out, hout, hinv⟩ := ih _ _ inv' hf'
       refine ⟨out, ?_, hinv⟩
-      simp only [bfsLoop, hcs, bfsChildren_depIn g rl _ cs rest hclosed]
+      -- the cycle guard never fires on this run: a ready child is neither `cur` nor yielded yet
+      have hguard : ∀ c ∈ cs, readyIn g rl (cur :: acc.reverse) c = true →
+          (cur :: acc.reverse).contains c = false := by
+        intro c hc _
+        have hedge : g.Edge cur c := by unfold Edge; rw [hco]; exact hc
+        have hpar : cur ∈ g.parentsOf c := wf.mem_parentsOf.mpr hedge
+        have hne : c ≠ cur := by
+          intro e
+          subst e
+          exact hcur.1 (hcur.2.2 c hpar hcur.2.1)
+        have hnacc : c ∉ acc := by
+          intro hca
+          have hb := (inv.done c hca).2 cur hpar hcur.2.1
+          unfold Before at hb
+          have hlt : acc.idxOf cur < acc.length :=
+            Nat.lt_of_lt_of_le hb (List.idxOf_le_length)
+          exact hcur.1 (List.idxOf_lt_length_iff.mp hlt)
+        cases hcon : (cur :: acc.reverse).contains c with
+        | false => rfl
+        | true =>
+          exfalso
+          have := List.contains_iff_mem.mp hcon
+          simp only [List.mem_cons, List.mem_reverse] at this
+          rcases this with h | h
+          · exact hne h
+          · exact hnacc h
+      simp only [bfsLoop, hcs, bfsChildren_depIn g rl _ cs rest hclosed hguard]
       simpa using hout
 
 /-- In the final state every node reachable from the start has been yielded. -/
@@ -307,7 +337,7 @@ generator does not raise. -/
 theorem breadthFirst_some_of_dfs_ok {g : Graph} {n : Nat}
     (h : (g.depthFirst (some n)).2 = none) :
     g.breadthFirst (some n)
-      = bfsLoop g (depIn (g.depthFirst (some n)).1) (bfsFuel g) [n] [] [] := by
+      = bfsLoop g (depIn (g.depthFirst (some n)).1) true (bfsFuel g) [n] [] [] := by
   simp only [breadthFirst, breadthFirstWithFuel, if_true]
   generalize g.depthFirst (some n) = r at h
   obtain ⟨rl, e⟩ := r
